@@ -14,7 +14,13 @@ def shards(types=R.WRITABLE, nshard=NSHARD):
 
 
 def spec_key(sp, opts):
-    return hashlib.sha1(R.encode_block(sp) + repr((sp["type"], sp["format"], sorted(opts.items()))).encode()).digest()
+    try:
+        body = R.encode_block(sp)
+    except Exception:  # noqa: BLE001 - an input the reference layout cannot express (a request that may be refused)
+        import json
+
+        body = json.dumps(specs.dump(sp), sort_keys=True).encode()
+    return hashlib.sha1(body + repr((sp["type"], sp["format"], sorted(opts.items()))).encode()).digest()
 
 
 def nontrivial(sp):
